@@ -1060,6 +1060,11 @@ func (t *Topic) saveAndBroadcastMessage(msg *ClientComMessage, asUid types.Uid, 
 // This is a NON-proxy broadcast.
 func (t *Topic) handlePubBroadcast(msg *ClientComMessage) {
 	asUid := types.ParseUserId(msg.AsUser)
+	if _, err := t.verifyChannelAccess(msg.Original); err != nil {
+		// User should not be able to address non-channel topic as channel.
+		msg.sess.queueOut(ErrNotFoundReply(msg, types.TimeNow()))
+		return
+	}
 	if t.isInactive() {
 		// Ignore broadcast - topic is paused or being deleted.
 		msg.sess.queueOut(ErrLocked(msg.Id, t.original(asUid), msg.Timestamp))
